@@ -5,6 +5,14 @@ Config equality as coded (supervisor/options.py, supervisor/datatypes.py): the a
       ProcessGroupConfig.__eq__, EventListenerPoolConfig.__eq__, FastCGIGroupConfig.__eq__, SocketConfig.__eq__
   eqBaseClass : the class named in each `isinstance(other, X)` guard
 Dropping an attribute from a comparison changes a table and breaks Props/C15 `eq_characterised`.
+  eqCompares : per group-level __eq__ (and SocketConfig.__eq__) every comparison of a `self.<attr>` operand as
+      (attr, operator, other operand); a loop `for a in ('x', 'y'): if getattr(self, a, None) != getattr(other, a, None)`
+      counts as one comparison per listed name.  Props/C15 `eq_compares_paired` demands that each one pairs self.<attr>
+      with other.<attr>.
+  eqUnrecognised : the statements of those __eq__ methods that are not of a shape the model follows (isinstance guard,
+      `if self.a != other.a: return False`, a conjunction of `self.a == other.a` returning True, `return True/False`,
+      delegation to ProcessGroupConfig.__eq__, the getattr loop above).  Props/C15 `eq_shape_understood` demands
+      that there is none: a hand-written loop or an extra early return inside an __eq__ is not silently ignored.
 """
 import ast, os
 from extract import REPO, lean_str
@@ -29,7 +37,96 @@ def _self_attrs(fn):
             for e in [n.left] + n.comparators:
                 if isinstance(e, ast.Attribute) and isinstance(e.value, ast.Name) and e.value.id == 'self' and e.attr not in out:
                     out.append(e.attr)
+    for n in ast.walk(fn):
+        if isinstance(n, ast.For):
+            for a in _getattr_loop(n) or []:
+                if a not in out:
+                    out.append(a)
     return out
+
+
+def _is_self_attr(e):
+    return isinstance(e, ast.Attribute) and isinstance(e.value, ast.Name) and e.value.id == 'self'
+
+
+def _getattr_loop(st):
+    """`for a in ('x', ...): if getattr(self, a[, None]) != getattr(other, a[, None]): return False` -> (names, op) or None"""
+    if not (isinstance(st, ast.For) and isinstance(st.target, ast.Name) and isinstance(st.iter, (ast.Tuple, ast.List))
+            and all(isinstance(e, ast.Constant) and isinstance(e.value, str) for e in st.iter.elts) and not st.orelse
+            and len(st.body) == 1 and isinstance(st.body[0], ast.If) and not st.body[0].orelse):
+        return None
+    t, var = st.body[0].test, st.target.id
+    def ga(e, who):
+        return (isinstance(e, ast.Call) and isinstance(e.func, ast.Name) and e.func.id == 'getattr' and len(e.args) in (2, 3)
+                and isinstance(e.args[0], ast.Name) and e.args[0].id == who and isinstance(e.args[1], ast.Name) and e.args[1].id == var
+                and (len(e.args) == 2 or (isinstance(e.args[2], ast.Constant) and e.args[2].value is None)))
+    if not (isinstance(t, ast.Compare) and len(t.ops) == 1 and isinstance(t.ops[0], ast.NotEq) and ga(t.left, 'self')
+            and ga(t.comparators[0], 'other') and len(t.left.args) == len(t.comparators[0].args)):
+        return None
+    b = st.body[0].body
+    if not (len(b) == 1 and isinstance(b[0], ast.Return) and isinstance(b[0].value, ast.Constant) and b[0].value.value is False):
+        return None
+    return [e.value for e in st.iter.elts]
+
+
+_OPS = {ast.Eq: '==', ast.NotEq: '!=', ast.Lt: '<', ast.LtE: '<=', ast.Gt: '>', ast.GtE: '>=', ast.Is: 'is', ast.IsNot: 'is not',
+        ast.In: 'in', ast.NotIn: 'not in'}
+
+
+def _compares(fn):
+    """every comparison with a self.<attr> operand: (attr, operator, the other operand)"""
+    out = []
+    for n in ast.walk(fn):
+        if isinstance(n, ast.Compare) and len(n.ops) == 1:
+            l, r = n.left, n.comparators[0]
+            if _is_self_attr(l):
+                out.append((n.lineno, n.col_offset, l.attr, _OPS.get(type(n.ops[0]), '?'), ast.unparse(r)))
+            elif _is_self_attr(r):
+                out.append((n.lineno, n.col_offset, r.attr, _OPS.get(type(n.ops[0]), '?') + ' (reversed)', ast.unparse(l)))
+        elif isinstance(n, ast.For):
+            names = _getattr_loop(n)
+            for k, a in enumerate(names or []):
+                out.append((n.lineno, n.col_offset + k, a, '!=', 'other.' + a))
+    return [(a, o, r) for _, _, a, o, r in sorted(out)]
+
+
+def _bool_const(e):
+    return isinstance(e, ast.Constant) and isinstance(e.value, bool)
+
+
+def _cmp_conj(e, op):
+    """a comparison `self.a <op> <expr>` or a conjunction of such"""
+    if isinstance(e, ast.BoolOp) and isinstance(e.op, ast.And):
+        return all(_cmp_conj(v, op) for v in e.values)
+    return isinstance(e, ast.Compare) and len(e.ops) == 1 and isinstance(e.ops[0], op) and _is_self_attr(e.left)
+
+
+def _unrecognised(fn):
+    bad = []
+    for st in fn.body:
+        if isinstance(st, ast.Expr) and isinstance(st.value, ast.Constant):
+            continue                                                     # docstring
+        if isinstance(st, ast.Return):
+            v = st.value
+            if _bool_const(v) or _cmp_conj(v, ast.Eq):
+                continue
+            if (isinstance(v, ast.Call) and isinstance(v.func, ast.Attribute) and v.func.attr == '__eq__'
+                    and [ast.unparse(a) for a in v.args] == ['self', 'other'] and not v.keywords):
+                continue                                                 # delegation to the base class
+        if isinstance(st, ast.If) and not st.orelse and len(st.body) == 1 and isinstance(st.body[0], ast.Return) and _bool_const(st.body[0].value):
+            t, val = st.test, st.body[0].value.value
+            if (val is False and isinstance(t, ast.UnaryOp) and isinstance(t.op, ast.Not) and isinstance(t.operand, ast.Call)
+                    and isinstance(t.operand.func, ast.Name) and t.operand.func.id == 'isinstance'
+                    and isinstance(t.operand.args[0], ast.Name) and t.operand.args[0].id == 'other'):
+                continue
+            if val is False and isinstance(t, ast.Compare) and len(t.ops) == 1 and isinstance(t.ops[0], ast.NotEq) and _is_self_attr(t.left):
+                continue
+            if val is True and _cmp_conj(t, ast.Eq):
+                continue
+        if _getattr_loop(st) is not None:
+            continue
+        bad.append(ast.unparse(st).split('\n')[0][:120])
+    return bad
 
 
 def _isinstance(fn):
@@ -63,14 +160,21 @@ def TABLES():
     lst('pconfigEqAttrs', names)
     wild = any(isinstance(n, ast.Name) and n.id == 'Automatic' for n in ast.walk(loop))
     L.append('def pconfigEqAutomaticWildcard : Bool := %s' % ('true' if wild else 'false'))
-    bases = []
+    bases, shapes = [], []
     for cname, tname, tree in (('ProcessGroupConfig', 'groupEqAttrs', opt), ('EventListenerPoolConfig', 'poolEqAttrs', opt),
                                ('FastCGIGroupConfig', 'fcgiEqAttrs', opt), ('SocketConfig', 'socketEqAttrs', dt)):
         fn = _meth(_cls(tree, cname), '__eq__')
         lst(tname, _self_attrs(fn))
         bases.append((cname, _isinstance(fn)))
+        shapes.append((cname, _compares(fn), _unrecognised(fn)))
     bases.append(('ProcessConfig', _isinstance(eq)))
     L.append('def eqBaseClass : List (String × String) := [%s]' % ', '.join('(%s, %s)' % (lean_str(a), lean_str(b)) for a, b in bases))
+    L.append('/-- every comparison of a self.<attr> operand inside the group-level __eq__ methods: (attr, operator, other operand) -/')
+    L.append('def eqCompares : List (String × List (String × String × String)) := [%s]' % ', '.join(
+        '(%s, [%s])' % (lean_str(c), ', '.join('(%s, %s, %s)' % (lean_str(a), lean_str(o), lean_str(r)) for a, o, r in cs)) for c, cs, _ in shapes))
+    L.append('/-- statements of those methods whose shape the model does not follow -/')
+    L.append('def eqUnrecognised : List (String × List String) := [%s]' % ', '.join(
+        '(%s, [%s])' % (lean_str(c), ', '.join(lean_str(x) for x in bad)) for c, _, bad in shapes))
     fc = _meth(_cls(opt, 'FastCGIGroupConfig'), '__eq__')
     delegates = any(isinstance(n, ast.Attribute) and n.attr == '__eq__' and isinstance(n.value, ast.Name) and n.value.id == 'ProcessGroupConfig'
                     for n in ast.walk(fc))
